@@ -39,7 +39,7 @@ def sweep_case(member):
     return [prem], conc
 
 def plan(tier):
-    return dict(runs=2400 if tier == 'quick' else 40000, timeout=300 if tier == 'quick' else 3600)
+    return dict(runs=2400 if tier == 'quick' else 40000, timeout=900 if tier == 'quick' else 7200)
 
 _PAIRS = None
 def pairs():
